@@ -10,17 +10,25 @@
    mainstream_defined / ramp_defined (partial reals: None = nan/inf born from finite input): the
      origin laws of both engines are defined on the whole admissible domain including zero speed
      and zero density - the log-ratio guard keeps log and power in their domains.
+   step_commutes_with_injection / every_output_finite (specs/C07fin_spec.v; both engines): the finiteness
+     clause for a WHOLE STEP.  The model run on the partial reals from finite admissible inputs -
+     non-negative densities with exact zeros allowed, any finite speeds and queues (for a mainstream origin
+     a non-negative speed limit and first speed, zero included), positive L, lanes, rho_crit, a, tau, kappa, T,
+     rho_crit < rho_max for ramps, excluding only a merge with zero total inflow, a bifurcation with zero total
+     first-segment density and turn rates summing to zero - is, entry by entry and for every option set, the
+     injection of the run on the reals: no nan / inf is born anywhere in the step.  finite_hypotheses_satisfiable:
+     a merge with an empty entering link at standstill and a mainstream origin with zero speed limit meets them.
    Partial: "succeeds" covers the failure points the model makes explicit; other Python exceptions
    (library signature mismatch, glue type errors), the NumPy/CasADi shape rules for 0-d / (1,) /
-   (n,1) values, IEEE overflow, and finiteness of the link updates at exact zeros are decided by the
+   (n,1) values and IEEE overflow / rounding (the partial reals are exact) are decided by the
    dynamic runs only (every accepted graph - also arbitrary graphs filtered by the implementation's
    own is_valid - stepped on NumPy with own variables / user arrays of three scalar shapes and on
    CasADi SX/MX, compiled at all levels, at boundary states). *)
 From Coq Require Import Reals List.
 From SM Require Import Num NumR NumPR Engine.
 From SM.gen Require Import EnginesNp EnginesCs.
-From SM.specs Require Import C07_spec.
-From SM.proofs Require Import Steppable.
+From SM.specs Require Import C07_spec C07fin_spec.
+From SM.proofs Require Import Steppable Finite.
 
 Theorem C07_numpy_steps_with_all_options : steps_with_all_options (@np_engine R NumR).
 Proof. exact np_steps_with_all_options. Qed.
@@ -43,3 +51,22 @@ Print Assumptions C07_ramp_defined_numpy.
 Theorem C07_ramp_defined_casadi : ramp_defined (@Cs.origins_get_ramp_flow PR NumPR).
 Proof. exact cs_ramp_defined. Qed.
 Print Assumptions C07_ramp_defined_casadi.
+
+(* finiteness of a whole step *)
+Theorem C07_step_commutes_with_injection_numpy :
+  step_commutes_with_injection (@np_engine PR NumPR) (@np_engine R NumR).
+Proof. exact np_step_commutes_with_injection. Qed.
+Print Assumptions C07_step_commutes_with_injection_numpy.
+Theorem C07_step_commutes_with_injection_casadi :
+  step_commutes_with_injection (@cs_engine PR NumPR) (@cs_engine R NumR).
+Proof. exact cs_step_commutes_with_injection. Qed.
+Print Assumptions C07_step_commutes_with_injection_casadi.
+Theorem C07_every_output_finite_numpy : every_output_finite (@np_engine PR NumPR) (@np_engine R NumR).
+Proof. exact np_every_output_finite. Qed.
+Print Assumptions C07_every_output_finite_numpy.
+Theorem C07_every_output_finite_casadi : every_output_finite (@cs_engine PR NumPR) (@cs_engine R NumR).
+Proof. exact cs_every_output_finite. Qed.
+Print Assumptions C07_every_output_finite_casadi.
+Theorem C07_finite_hypotheses_satisfiable : finite_example_meets_hypotheses.
+Proof. exact finite_example_ok. Qed.
+Print Assumptions C07_finite_hypotheses_satisfiable.
